@@ -275,6 +275,7 @@ def run_case(ck, desc):
                 ck.violation("elementwise", {"fn": desc["fn"], "form": label, "max_rel": float(np.max(np.abs(o2.astype(float) - want) / np.abs(want)))}, desc)
     # second call on the SAME buffer after the caller has overwritten its contents in place
     if view.shape[0] >= 2 and view.dtype.kind == "f" and not read_only:
+        arr_call(view)  # (the call right before the edit sees this very array object - nothing in between)
         view *= 0.7
         view += 11.0
         out2 = np.asarray(arr_call(view))
